@@ -172,6 +172,9 @@ TSolve ==
     /\ Explain(ev.lmn = ts.lmn /\ ev.lmx = ts.lmx, <<l, "Solve", "lmn", ts.lmn>>)
     /\ Explain(ev.ret \in {0, -1}, <<l, "Solve", "ret", {0, -1}>>)
     /\ Explain(MustSucceedAt(c, ev.pt, ev.et) => ev.ret = 0, <<l, "Solve", "ret", 0>>)
+    (* too few standards: refused before any iteration *)
+    /\ Explain(UnderDetermined(c) => (ev.ret = -1 /\ ts.lmn = 0),
+               <<l, "Solve", "underDetermined", "EDOM without iterating">>)
     /\ IF ev.ret = 0
        THEN /\ Explain(ev.errno = "OK" /\ ev.cbn = 0, <<l, "Solve", "cbn", 0>>)
             /\ IF Analytic(c)
@@ -183,8 +186,9 @@ TSolve ==
             /\ Explain(ev.errno = "EDOM", <<l, "Solve", "errno", "EDOM">>)
             /\ Explain(ev.cbn = 1 /\ ev.cat = "MATH" /\ ev.one = 1,
                        <<l, "Solve", "cb", "one MATH report">>)
-            /\ Explain(Analytic(c) \/ (ts.lmx >= 1 /\ ts.last # "ok"),
-                       <<l, "Solve", "last", "failing loop exit">>)
+            /\ Explain(Analytic(c) \/ UnderDetermined(c) \/
+                       (ts.lmx >= 1 /\ LegitimateFailure(c, ts.last)),
+                       <<l, "Solve", "last", "loop ended by the limit">>)
     /\ ts' = [ts EXCEPT !.ph = IF ev.ret = 0 THEN "params" ELSE "solved"]
     /\ UNCHANGED lmvars
 
